@@ -74,7 +74,7 @@ def state_fingerprint(p):
 
 
 def run_history(hist, checks):
-    """-> failures.  checks subset of {'C10','C11','C12','C13','C15'}"""
+    """-> failures.  checks subset of {'C06','C10','C11','C12','C13','C15'}"""
     fails = []
     st = dict(hist['settings'])
     p = IP.new_plugin(**PS.Run.settings_dict(st))
@@ -190,6 +190,24 @@ def run_history(hist, checks):
                         break
             if kind == 'api' and PS.http(r) != 200 and (after_regs != before_regs or state_fingerprint(p) != before_fp):
                 fails.append(fail('refused request changed the state', k, hist, 'C12:refused'))
+        # ---------------- C06 at the plugin layer: scripts (as configured in the settings) exactly once at episode boundaries;
+        # only a move out, a disable @-command, the clean-up hook or a new print may end an episode
+        if 'C06' in checks and active and was_active:
+            ent, ext_ = st['enter'] or [], st['exit'] or []
+            excl_after = p.state.excluding
+            outs = []
+            if kind in ('cmd', 'at') and isinstance(r, (list, tuple)):
+                outs = [c for c in r if isinstance(c, str)]
+            elif kind == 'script' and isinstance(r, tuple) and isinstance(r[0], list):
+                outs = list(r[0])
+            if kind == 'cmd' and not excl_before and excl_after:
+                if [c for c in outs if c in ent] != ent:
+                    fails.append(fail('episode opened by %r without exactly the enter script %r: %r' % (ev[1], ent, outs), k, hist, 'C06:enter-script'))
+            if kind in ('cmd', 'at', 'script') and excl_before and not excl_after and ext_:
+                if [c for c in outs if c in ext_] != ext_:
+                    fails.append(fail('episode closed by %r without exactly the exit script %r: %r' % (ev[1], ext_, outs), k, hist, 'C06:exit-script'))
+            if excl_before and not excl_after and (kind in ('settings', 'api', 'get') or (kind == 'event' and ev[1] in PS.OTHER_EVENTS)):
+                fails.append(fail('episode ended by %r: nothing is flushed, the deferred commands and the exit script are lost' % (ev,), k, hist, 'C06:lost-episode'))
         # ---------------- C15: the script hook
         if 'C15' in checks and kind == 'script':
             fire = ev[1] == 'gcode' and ev[2] == 'afterPrintDone' and was_active and excl_before
@@ -226,9 +244,7 @@ def check_C10(hist, rng):
         if ev[0] == 'settings':
             st = dict(ev[1])
     regs = IP.api_get(p)['excluded_regions']
-    IP.set_settings(p, PS.Run.settings_dict(st))
-    p.on_event(IP.EVENTS['SETTINGS_UPDATED'], {})
-    outs_used = []
+    outs_used = []                 # (no settings event here: the settings are unchanged, only print-started separates the two lives)
     p.on_event(IP.EVENTS['PRINT_STARTED'], {})
     prog = hist['tail']
     for line in prog:
